@@ -140,13 +140,22 @@ def eff_price(f):
     return min(val(f["maxFee"]), val(f["maxPrio"]) + val(f["baseFee"]))
 
 
-def reward_of(f, gas_used):
+def overall_price(f):
+    if f["type"] != "legacy":
+        return val(f["maxFee"])
     p = eff_price(f)
+    w = val(f.get("work", []))
+    if w:
+        p += min(w // 1000, f["gas"]) * val(f["legacyBase"]) // f["gas"]
+    return p
+
+
+def reward_of(f, gas_used):
+    o = overall_price(f)
     if f["gal"]:
-        cap = p if f["type"] == "legacy" else val(f["maxFee"])
-        tip = p if f["type"] == "legacy" else val(f["maxPrio"])
-        return min(cap - val(f["baseFee"]), tip) * gas_used
-    return p * gas_used * val(f["ratio"]) // 10 ** 18
+        tip = o if f["type"] == "legacy" else val(f["maxPrio"])
+        return min(o - val(f["baseFee"]), tip) * gas_used
+    return o * gas_used * val(f["ratio"]) // 10 ** 18
 
 
 def payer_of(f):
@@ -183,6 +192,10 @@ def classify_tx(ev):
         return "start-verdict"
     if ev["payer"] != payer_of(ev["facts"]):
         return "payer-choice"
+    if not ev.get("rawok", True):
+        return "raw-run:" + str(ev.get("rawerr", "")).split(":")[0]
+    if not ev.get("classok", True):
+        return "clause-class"
     fin = run_rules(ev["gas"], ev["intr"], ev["raws"])
     want = "none" if fin["reverted"] else "all"
     if ev["applied"] != want:
@@ -195,6 +208,8 @@ def classify_tx(ev):
         return "gas-used"
     if [r["in"] for r in ev["raws"]] != fin["ins"]:
         return "clause-gas"
+    if ev.get("outs") is not None and ev["outs"] != [r["left"] + min((r["in"] - r["left"]) // 2, r["ctr"]) for r in ev["raws"]]:
+        return "clause-refund"
     if not (ev["intr"] <= ev["gasUsed"] <= ev["gas"]):
         return "gas-bounds"
     if not ev["outsok"]:
@@ -206,10 +221,14 @@ def classify_tx(ev):
         return "paid"
     if val(ev["reward"]) != reward_of(f, ev["gasUsed"]):
         return "reward"
-    if ev["debitNeg"] or val(ev["debit"]) != paid:
-        return "payer-debit"
-    if ev["creditNeg"] or val(ev["credit"]) != val(ev["reward"]):
-        return "beneficiary-credit"
+    if ev.get("pb"):
+        if ev["debitNeg"] or val(ev["debit"]) != paid - val(ev["reward"]):
+            return "payer-debit"
+    else:
+        if ev["debitNeg"] or val(ev["debit"]) != paid:
+            return "payer-debit"
+        if ev["creditNeg"] or val(ev["credit"]) != val(ev["reward"]):
+            return "beneficiary-credit"
     if val(ev["subd"]) + price * (ev["gas"] - ev["gasUsed"]) + val(ev["reward"]) != val(ev["addd"]) + price * ev["gas"]:
         return "energy-totals"
     if val(ev["used1"]) - val(ev["used0"]) != (paid if ev["payer"] in ("sponsor", "contract") else 0):
@@ -264,6 +283,13 @@ def classify_block(ev, galactica):
     h, p = ev["hdr"], ev["par"]
     if h["gasUsed"] != sum(r["gasUsed"] for r in rs) or h["gasUsed"] > h["gasLimit"]:
         return "block-gas-used"
+    split = ev["pos"] and ev["split"] and ev["pct"] < 100
+    val_share = issue * ev["pct"] // 100 if split else issue
+    for fl in ev.get("flows", []):
+        credit = val(fl["evIn"]) + ((rew + val_share) if fl["benef"] else 0) + ((issue - val_share) if fl["deleg"] else 0)
+        delta = val(fl["delta"]) * (-1 if fl["deltaNeg"] else 1)
+        if delta != credit - val(fl["evOut"]) - val(fl["paid"]):
+            return "payer-debit" if fl["payer"] and not (fl["benef"] or fl["deleg"]) else ("delegator-credit" if fl["deleg"] and not fl["benef"] else "beneficiary-credit")
     gal = galactica >= 0 and ev["num"] >= galactica
     if h["hasBase"] != gal:
         return "base-fee-presence"
